@@ -34,7 +34,40 @@ def variants(src, contexts, imports, layouts):
                 except Exception: pass
     return out
 
+def _items_for_codemod(arg):
+    """all variants of one codemod's seeds (runs in a pool process: libcst restyling is the expensive, single-threaded part of a plan)"""
+    import warnings; warnings.simplefilter("ignore")
+    tier, ctxs, imps, lays, rs, pick = arg
+    seen = {}
+    for r in rs:
+        # every seed in its base form; a function-local decoy import of what the codemod adds at module level (hint taken from the seed's expected imports, never an oracle)
+        seen.setdefault(hashlib.sha1(r["input"].encode()).hexdigest()[:12], (("module", "plain", "lf"), r["input"].encode()))
+        dec = gen.local_decoy(r["input"], gen.added_imports(r["input"], r["expected"]))
+        if dec is not None: seen.setdefault(hashlib.sha1(dec.encode()).hexdigest()[:12], (("local-decoy-import", "plain", "lf"), dec.encode()))
+    for ri, r in enumerate(pick):
+        vs = variants(r["input"], ctxs, imps, lays)
+        have = {(label[0], label[2]) for label, _ in vs}
+        for label, data in vs:
+            # layouts only on plain/module+def to bound the grid
+            if label[2] != "lf" and not (label[1] == "plain" and label[0] in ("module", "def")): continue
+            if tier == "quick" and label[1] != "plain" and label[0] not in ("module", "def"): continue      # import styles x {module, def} only in the quick tier
+            if tier == "quick" and label[2] != "lf":
+                # quick tier: each byte / call layout in ONE of the two contexts, alternating from seed to seed; the other context when the preferred one does not exist for this seed
+                pref = ("module", "def")[(ri + lays.index(label[2].replace("legacy-encoding-", "")) if label[2].replace("legacy-encoding-", "") in lays else ri) % 2]
+                other = "def" if pref == "module" else "module"
+                if label[0] != (pref if (pref, label[2]) in have else other): continue
+            h = hashlib.sha1(data).hexdigest()[:12]
+            seen.setdefault(h, (label, data))
+    return sorted(seen.items())
+
+_PLANS = {}
 def plan(tier, seed):
+    """the shared grid; computed once per process and (tier, seed) - several checks and C15/C20 ask for it more than once"""
+    if (tier, seed) not in _PLANS: _PLANS[(tier, seed)] = _plan(tier, seed)
+    return [dict(j) for j in _PLANS[(tier, seed)]]
+
+def _plan(tier, seed):
+    import concurrent.futures as cf
     rnd = random.Random(f"grid:{seed}")
     recs = [r for r in corpus.load() if r["codemod"].startswith("pixee:") and r["input"] != r["expected"] and not r["files"]]
     by = collections.defaultdict(list)
@@ -43,31 +76,15 @@ def plan(tier, seed):
         per, ctxs, imps, lays = 5, ("module", "def", "nested", "twice", "twice-defs", "closure"), ("plain", "alias", "from", "second-use", "mixed"), ("lf", "crlf", "bom", "exploded", "trailing-comma", "semicolon", "keywords-reversed", "cp1252", "dataflow", "shape-double-star", "formfeed")
     else:
         per, ctxs, imps, lays = 10**6, ("module", "def", "async", "method", "nested", "prelude", "twice", "twice-defs", "closure"), ("plain", "alias", "from", "second-use", "mixed"), ("lf", "crlf", "nonl", "bom", "tabs", "unicode", "exploded", "exploded-comments", "trailing-comma", "semicolon", "backslash", "formfeed", "keywords-reversed", "hanging", "cp1252", "latin-1", "shift_jis", "dataflow", "shape-double-star", "shape-star-args", "shape-extra-keyword", "shape-keyword-first")
-    jobs = []
+    jobs = []; args = []; cids = []
     for cid, rs in sorted(by.items()):
         rs = sorted(rs, key=lambda r: hashlib.sha1(r["input"].encode()).hexdigest())
         pick = rs if len(rs) <= per else rs[:per // 2] + rnd.sample(rs[per // 2:], per - per // 2)
-        seen = {}
-        for r in rs:
-            # every seed in its base form; a function-local decoy import of what the codemod adds at module level (hint taken from the seed's expected imports, never an oracle)
-            seen.setdefault(hashlib.sha1(r["input"].encode()).hexdigest()[:12], (("module", "plain", "lf"), r["input"].encode()))
-            dec = gen.local_decoy(r["input"], gen.added_imports(r["input"], r["expected"]))
-            if dec is not None: seen.setdefault(hashlib.sha1(dec.encode()).hexdigest()[:12], (("local-decoy-import", "plain", "lf"), dec.encode()))
-        for ri, r in enumerate(pick):
-            vs = variants(r["input"], ctxs, imps, lays if tier != "quick" else lays)
-            have = {(label[0], label[2]) for label, _ in vs}
-            for label, data in vs:
-                # layouts only on plain/module+def to bound the grid
-                if label[2] != "lf" and not (label[1] == "plain" and label[0] in ("module", "def")): continue
-                if tier == "quick" and label[1] != "plain" and label[0] not in ("module", "def"): continue      # import styles x {module, def} only in the quick tier
-                if tier == "quick" and label[2] != "lf":
-                    # quick tier: each byte / call layout in ONE of the two contexts, alternating from seed to seed; the other context when the preferred one does not exist for this seed
-                    pref = ("module", "def")[(ri + lays.index(label[2].replace("legacy-encoding-", "")) if label[2].replace("legacy-encoding-", "") in lays else ri) % 2]
-                    other = "def" if pref == "module" else "module"
-                    if label[0] != (pref if (pref, label[2]) in have else other): continue
-                h = hashlib.sha1(data).hexdigest()[:12]
-                seen.setdefault(h, (label, data))
-        items = sorted(seen.items())
+        slim = lambda r: {"input": r["input"], "expected": r["expected"]}
+        args.append((tier, ctxs, imps, lays, [slim(r) for r in rs], [slim(r) for r in pick])); cids.append(cid)
+    with cf.ProcessPoolExecutor(max_workers=int(os.environ.get("VF_WORKERS", "14"))) as ex:
+        all_items = list(ex.map(_items_for_codemod, args))
+    for cid, items in zip(cids, all_items):
         if corpus.is_semgrep_detected(cid):
             for i in range(0, len(items), 50):
                 chunk = items[i:i + 50]
